@@ -90,7 +90,20 @@ int fclose(FILE *f)
    snprintf(link, sizeof(link), "/proc/self/fd/%d", fileno(f));
    ssize_t n = readlink(link, path, sizeof(path) - 1);
    if (n > 11) { path[n] = 0; if (strcmp(path + n - 11, ".uncrustify") == 0 && getenv("VERIF_FAIL_CLOSE")) { fflush(f); if (ftruncate(fileno(f), 5) != 0) { } real(f); return EOF; } }
+   /* the same for the backup file: the flush at close fails (disk full / quota / EIO), nothing of the buffered data reaches the file */
+   if (n > 12) { path[n] = 0; if (strcmp(path + n - 12, ".unc-backup~") == 0 && getenv("VERIF_FAIL_CLOSE_BACKUP")) { fflush(f); if (ftruncate(fileno(f), 0) != 0) { } real(f); return EOF; } }
    return real(f);
+}
+/* fault injection: the VERIF_FAIL_FREAD-th fread(buf, 1, 4096, f) (the chunked reader of backup_create_md5_file) fails with a read
+ * error: nothing read, error indicator set */
+size_t fread(void *ptr, size_t size, size_t nmemb, FILE *f)
+{
+   static size_t (*real)(void *, size_t, size_t, FILE *) = 0;
+   static int seen = 0;
+   if (!real) { real = (size_t (*)(void *, size_t, size_t, FILE *))dlsym(RTLD_NEXT, "fread"); }
+   const char *k = getenv("VERIF_FAIL_FREAD");
+   if (k && size == 1 && nmemb == 4096 && ++seen == atoi(k)) { f->_flags |= 0x20 /* glibc _IO_ERR_SEEN: what a failed read(2) leaves behind */; return 0; }
+   return real(ptr, size, nmemb, f);
 }
 '''
 
@@ -113,6 +126,54 @@ def scenario_failed_close(exe, workroot):
     if now != SRC or rc == 0:
         return True, 'fclose() of a.c.uncrustify fails after a lost flush: exit status %d, target %s (len %d)' % (rc, 'still original' if now == SRC else 'REPLACED BY THE TRUNCATED FILE', len(now))
     return False, 'failed close: exit status %d, target still holds the original bytes' % rc
+
+
+def scenario_md5_read_fault(exe, workroot):
+    """C14: a read error while the formatted file is digested for the md5 file must not leave an md5 that describes something else
+    (the next run would take the file for a user edit and overwrite the backup with uncrustify's own output)"""
+    d = _tmp(workroot)
+    shim_c = os.path.join(d, 'shim.c')
+    open(shim_c, 'w').write(_SHIM)
+    so = os.path.join(d, 'shim.so')
+    p = subprocess.run(['gcc', '-shared', '-fPIC', '-o', so, shim_c, '-ldl'], stdout=subprocess.PIPE, stderr=subprocess.STDOUT, text=True)
+    if p.returncode != 0:
+        return False, 'could not build the fault-injection shim: ' + p.stdout[-300:]
+    f = os.path.join(d, 'a.c')
+    big = b''.join(b'int   v%d  =  %d ;\n' % (i, i) for i in range(1500))      # formatted output > 2 chunks of 4096 bytes
+    open(f, 'wb').write(big)
+    cfg = _cfg(d, 'indent_with_tabs = 0\n')
+    rc, out, err = run(exe, ['-c', cfg, '--replace', f, '-q'], env=dict(os.environ, LD_PRELOAD=so, VERIF_FAIL_FREAD='2'))
+    md5f = f + '.unc-backup.md5~'
+    now = open(f, 'rb').read()
+    rec = open(md5f, 'rb').read().split()[0].decode() if os.path.exists(md5f) and open(md5f, 'rb').read().split() else None
+    if rec is not None and rec != hashlib.md5(now).hexdigest():
+        rc2, _, _ = run(exe, ['-c', cfg, '--replace', f, '-q'])
+        bk = open(f + '.unc-backup~', 'rb').read()
+        return True, ('read error on the 2nd chunk while digesting a.c: exit status %d, md5 file records %s but the file has md5 %s; after the next --replace run the backup %s'
+                      % (rc, rec, hashlib.md5(now).hexdigest(), 'still holds the original' if bk == big else 'HOLDS UNCRUSTIFY\'S OWN OUTPUT, the original is lost'))
+    return False, 'read fault while digesting: exit status %d, md5 file %s' % (rc, 'absent' if rec is None else 'matches the file')
+
+
+def scenario_backup_close_fault(exe, workroot):
+    """C13: the flush of the backup file fails at fclose(): the run must not go on to replace the file"""
+    d = _tmp(workroot)
+    shim_c = os.path.join(d, 'shim.c')
+    open(shim_c, 'w').write(_SHIM)
+    so = os.path.join(d, 'shim.so')
+    p = subprocess.run(['gcc', '-shared', '-fPIC', '-o', so, shim_c, '-ldl'], stdout=subprocess.PIPE, stderr=subprocess.STDOUT, text=True)
+    if p.returncode != 0:
+        return False, 'could not build the fault-injection shim: ' + p.stdout[-300:]
+    f = os.path.join(d, 'a.c')
+    open(f, 'wb').write(SRC)
+    cfg = _cfg(d, 'indent_with_tabs = 0\n')
+    rc, out, err = run(exe, ['-c', cfg, '--replace', f, '-q'], env=dict(os.environ, LD_PRELOAD=so, VERIF_FAIL_CLOSE_BACKUP='1'))
+    now = open(f, 'rb').read()
+    bk = open(f + '.unc-backup~', 'rb').read() if os.path.exists(f + '.unc-backup~') else None
+    if now != SRC and bk != SRC:
+        return True, 'fclose() of a.c.unc-backup~ fails (lost flush): exit status %d, a.c REPLACED while the backup holds %s bytes of the %d original bytes' % (rc, 'no' if not bk else len(bk), len(SRC))
+    if rc == 0 and bk != SRC:
+        return True, 'fclose() of the backup fails but the exit status is 0'
+    return False, 'failed close of the backup: exit status %d, a.c %s' % (rc, 'untouched' if now == SRC else 'replaced, backup complete')
 
 
 def scenario_failed_backup(exe, workroot):
@@ -449,7 +510,7 @@ if __name__ == '__main__':
     sys.path.insert(0, os.path.dirname(os.path.abspath(__file__)))
     import gen
     gen.gen_options(os.environ.get('VERIF_REPO', '/repo'), os.path.join(w, 'gen'))
-    for sc in (scenario_bad_numbers, scenario_md5_after_rename, scenario_failed_close, scenario_failed_backup, scenario_check_truth, scenario_too_big, scenario_enum_roundtrip,
+    for sc in (scenario_backup_close_fault, scenario_md5_read_fault, scenario_bad_numbers, scenario_md5_after_rename, scenario_failed_close, scenario_failed_backup, scenario_check_truth, scenario_too_big, scenario_enum_roundtrip,
                scenario_gating_default, scenario_lang_leak, scenario_line_endings, scenario_encoding, scenario_whitespace_hygiene, scenario_ignored_region,
                scenario_blank_lines, scenario_sp_bool_site, lambda e, w_: scenario_spacing_option(e, w_, 'sp_arith')):
         try:
